@@ -75,4 +75,8 @@ CHECKS["C20"] = dict(
    text="The restriction catalogue (about 80 documented restrictions x violating/boundary values, plus black-box Noh's initial-condition checks) is executed exhaustively on every run and repeated with random valid values for the other parameters; documented out-of-domain requests must raise or return no entirely-finite record; every in-domain call of a sweep over all solver classes must return finite fields (icontract postcondition on ExactSolver.__call__). Enumeration of the catalogue, sampling of the rest; unenforced restrictions and in-domain NaN mechanisms that were not repaired are listed known findings.",
    design_ref="5/C20", note=_T + "; the catalogue RESTR in rtm/props/c20.py was written from the pinned tree's docstrings, parameter help and messages",
    technique="fault-catalogue execution (constructor/domain outcomes observed) + online finiteness contract at the call boundary")
+CHECKS["C06"] = dict(
+   text="Held on the sampled histories: every repeated (class, constructor arguments, configuration, points, t) inside long mixed histories of 18 solver families carries the same bit-exact digest, a sample of events per history equals its first-call-in-a-fresh-interpreter reference bit for bit, and values are unchanged (1e-10; documented grid resolution for Sedov/Mader) under permutation, subsets, supersets and duplicates of the request. Sampling of histories, not enumeration; threads are out of scope.",
+   design_ref="5/C06", note=_T + "; fresh references come from one new interpreter per sampled event (python -m rtm.fresh)",
+   technique="offline checker over recorded call histories (bit-exact digests, fresh-process replay) + batch-permutation differential monitor")
 NOT_YET = {}
